@@ -23,6 +23,7 @@ RULE = ('Hypothesis draws content (empty/ASCII/UTF-8 incl. astral/Latin-1 bytes 
         'multiset, signatures verify under PGPy and the reference. Non-trivial: >=2 signers, or compressed+signed, or non-ASCII content/file name, or '
         'foreign encoding; distinct by (signer count, compression, format, content class, direction).')
 RULE += ' Contents include incompressible blocks repeated at distances 8200..33000 (DEFLATE matches up to the full window) under every compression, both directions.'
+RULE += ' Signers may leave out the issuer subpacket or name themselves by fingerprint only; text given under format t must read back as given.'
 ASSUMPTIONS = ['refpgp.grammar recogniser and zlib/bz2 (shared) are trusted', 'literal time compared at one-second resolution',
                'file names and times are supplied through PGPMessage.new(file=True) on temporary files, the only public way to set them',
                'text under format "t" in a charset other than UTF-8 is compared as octets when the transport is binary (no Charset hint survives it)']
